@@ -139,8 +139,13 @@ class Emitter:
                 self.uses.add("yymore")
             elif k == "less":
                 mode = {"abs": 0, "back": 1, "hash": 2, "abs0": 3}[op[1]]
-                out.append("%s{ int vf_n = vf_less_n(%s, %d, %d, %du, yyleng); yyless(vf_n); "
-                           "vf_L(%s, vf_n, yytext, yyleng); }" % (indent, C, mode, op[2], op[3], C))
+                call = "yyless(vf_n)"
+                if self.o.get("less_in_sect3") and in_yylex and not fl.cxx:
+                    # through a function of section 3: the skeleton's second definition of yyless
+                    call = "vf_less3(vf_n%s)" % fl.a1
+                    self.uses.add("less3")
+                out.append("%s{ int vf_n = vf_less_n(%s, %d, %d, %du, yyleng); %s; "
+                           "vf_L(%s, vf_n, yytext, yyleng); }" % (indent, C, mode, op[2], op[3], call, C))
             elif k == "unput":
                 self.uniq += 1
                 n = len(op[1])
@@ -431,6 +436,8 @@ class Emitter:
                     L.append("#define YY_INPUT(buf,result,max_size) do { (result) = vf_read(%s, yyin, "
                              "(buf), (size_t) (max_size)); } while (0)" % C)
             L.append("#define YY_FATAL_ERROR(msg) vf_fatal(%s, (msg))" % C)
+        if "less3" in self.uses:
+            L.append("static void vf_less3(int n%s);" % (", yyscan_t yyscanner" if fl.a0 else ""))
         if "bufhelpers" in self.uses:
             pa = ", yyscan_t yyscanner" if fl.a0 else ""
             p0 = "yyscan_t yyscanner" if fl.a0 else "void"
@@ -782,6 +789,14 @@ class Emitter:
             L.append("static int yyread(char *buf, size_t max_size, struct yyguts_t *yyscanner) {")
             L.append("\treturn vf_read(%s, yyget_in(yyscanner), buf, max_size);" % C)
             L.append("}")
+        if "less3" in self.uses:
+            if fl.nr:
+                L.append("static void vf_less3(int n) { yyless(n); }")
+            elif fl.r:
+                L.append("static void vf_less3(int n, yyscan_t yyscanner) { "
+                         "struct yyguts_t *yyg = (struct yyguts_t *) yyscanner; yyless(n); }")
+            else:
+                L.append("static void vf_less3(int n, yyscan_t yyscanner) { yyless(n, yyscanner); }")
         if o.get("ledger"):
             sz = "size_t" if fl.c99 else "yy_size_t"
             ext = ", %s" % ("struct yyguts_t *yyscanner" if fl.c99 else "yyscan_t yyscanner") \
